@@ -7,13 +7,13 @@ import time
 
 VERIF = os.path.dirname(os.path.dirname(os.path.dirname(os.path.abspath(__file__))))
 REPO = os.environ.get("VERIF_REPO", "/repo")
-BUILD = os.path.join(VERIF, ".build")
+BUILD = os.environ.get("VERIF_BUILD") or os.path.join(VERIF, ".build")
 MIRROR = os.path.join(BUILD, "mirror")
 OBJ = os.path.join(BUILD, "obj")
 ROOT = os.path.join(BUILD, "root")
 RUN = os.path.join(BUILD, "run")
-OUT = os.path.join(VERIF, "out")          # git-ignored: new violations' replay files
-EVIDENCE = os.path.join(VERIF, "evidence")
+OUT = os.environ.get("VERIF_OUT") or os.path.join(VERIF, "out")          # git-ignored: new violations' replay files
+EVIDENCE = os.environ.get("VERIF_EVIDENCE") or os.path.join(VERIF, "evidence")
 REPLAYS = os.path.join(VERIF, "replays")
 NCPU = os.cpu_count() or 4
 
